@@ -25,6 +25,7 @@ RULE = (
     "pairs (same, equivalent, convertible incl. offset and non-dyadic factors, incompatible) x masks FLEX/NONE/explicit; "
     "links between two layouts of the same UniformGrid (axes_reversed / axes_increase / order differ, 1-3 D, non-square), "
     "links under a memory limit (0 and small: publications spilled to disk and read back) with masked payloads of varying masks; "
+    "consumers declaring their own NoGrid data shape (equal / flexible vs fixed axes: link refused at the exchange unless equal); "
     "a separate stream for the memory-sharing rule (views, strided views, copies, same object, buffers updated in place and published "
     "again, converted; infos with FLEX / NONE / nomask / explicit masks); producers alternating two pre-allocated buffers with consumers "
     "stepping over publications and working in place on their own (converted) arrays; a stream with 2-3 "
@@ -144,6 +145,22 @@ def layout_positions(dims_xyz, rev, inc):
 # ----------------------------------------------------------------------------
 # generator
 # ----------------------------------------------------------------------------
+def _ngrid_variant(rng, dsh):
+    """a consumer-side NoGrid data shape: the producer's, or with some axes toggled between flexible (-1) and fixed"""
+    if rng.random() < 0.3:
+        return list(dsh)
+    out = []
+    for x in dsh:
+        q = rng.random()
+        if q < 0.4:
+            out.append(x)
+        elif x == -1:
+            out.append(rng.choice([2, 3, 3]))
+        else:
+            out.append(rng.choice([-1, -1, x + 1]))
+    return out
+
+
 def _gen_payload(rng, g, uo, maskspec, serial, exact, malformed, wraps=None):
     ds = [x if x != -1 else rng.choice([1, 2, 3]) for x in grid_shape(g)]
     n = _prod(ds)
@@ -263,6 +280,11 @@ def _gen_case(rng, malformed, exact=False):
         if len(ops) > 14:
             break
     case = {"grid": g, "uo": uo, "ui": ui, "mask": maskspec, "in_mask": rng.choice(["flex", "same"]), "ops": ops}
+    if g["kind"] == "no" and g["dsh"] and rng.random() < 0.3:
+        # the consumer declares its own NoGrid: the link exists only for equal data shapes (else MetaDataError, no data crosses)
+        case["consumers"] = [{"kind": "direct", "ui": ui, "ngrid": _ngrid_variant(rng, g["dsh"])}]
+        if isinstance(maskspec, list):
+            case["mask"], case["in_mask"] = "flex", "flex"
     if rng.random() < 0.15:
         case["mem_limit"] = rng.choice([0, 0, 8, 64, 200])  # publications spilled to disk (np.save / pickle) and read back
     return case
@@ -423,6 +445,10 @@ def _gen_multi_case(rng, flavour=None):
             last[c] = r
         if k >= len(ts) and rng.random() < 0.15:
             break
+    if g["kind"] == "no" and g["dsh"] and flavour is None:
+        for c in consumers:
+            if rng.random() < 0.3:
+                c["ngrid"] = _ngrid_variant(rng, g["dsh"])
     case = {"grid": g, "uo": uo, "ui": consumers[0]["ui"], "consumers": consumers, "mask": "flex", "in_mask": "flex", "ops": ops}
     if mem_limit is not None:
         case["mem_limit"] = mem_limit
@@ -524,6 +550,20 @@ for _m in ([False, True, False], "nomask", "flex", "none"):
                            ["push", 6, _p([1, 3], [1, 2, 3], "qty", units="m")], ["push", 7, _p([1, 3], [4, 5, 6], "qty", units="m", buf={"reuse": 2})],
                            ["push", 8, _p([3], [1, 2, 3], "qty", units="km")], ["push", 9, _p([3], [4, 5, 6], "qty", units="km", buf={"reuse": 4})],
                            ["push", 10, _p([3], [1, 2, 3], "list")], ["push", 11, _p([3], [4, 5, 6], "list", buf={"same_as": 6})]]})
+# seeded change C08_m: consumers with their own NoGrid data shape.  flexible producer -> fixed consumer (and the reverse) is refused at
+# the exchange; equal shapes (also partly flexible) link, and what arrives fits the consumer's declared shape
+CORPUS.append({"grid": _NG1, "uo": "m", "ui": "cm", "mask": "flex", "in_mask": "flex",
+               "consumers": [{"kind": "direct", "ui": "cm", "ngrid": [3]}],
+               "ops": [["push", 0, _p([3], [8, 16, 24])], ["pull", 0, 0], ["push", 5, _p([5], [1, 2, 3, 4, 5])], ["pull", 5, 0]]})
+CORPUS.append({"grid": {"kind": "no", "dsh": [3]}, "uo": "m", "ui": "m", "mask": "flex", "in_mask": "flex",
+               "consumers": [{"kind": "direct", "ui": "m", "ngrid": [-1]}], "ops": [["push", 0, _p([3], [8, 16, 24])], ["pull", 0, 0]]})
+CORPUS.append({"grid": {"kind": "no", "dsh": [-1, -1]}, "uo": "km", "ui": "m", "mask": "flex", "in_mask": "flex",
+               "consumers": [{"kind": "direct", "ui": "m", "ngrid": [2, -1]}],
+               "ops": [["push", 0, _p([2, 2], [1, 2, 3, 4])], ["pull", 0, 0], ["push", 9, _p([3, 2], [1, 2, 3, 4, 5, 6])], ["pull", 9, 0]]})
+CORPUS.append({"grid": {"kind": "no", "dsh": [2, -1]}, "uo": "km", "ui": "m", "mask": "flex", "in_mask": "flex",
+               "consumers": [{"kind": "direct", "ui": "m", "ngrid": [2, -1]}, {"kind": "scale", "ui": "cm", "ngrid": [2, -1]}, {"kind": "direct", "ui": None}],
+               "ops": [["push", 0, _p([2, 2], [1, 2, 3, 4])], ["pull", 0, 0], ["push", 9, _p([1, 2, 3], [1, 2, 3, 4, 5, 6], "qty", units="m")],
+                       ["pull", 9, 1], ["pull", 4, 2], ["pull", 5, 0]]})
 # witness of KNOWN finding F21: converting a fully masked 0-d quantity yields numpy's np.ma.masked singleton, so the second
 # such publication "shares memory" with the first although the caller's buffers are distinct (finam refuses it)
 CORPUS.append({"grid": _NG0, "uo": "km/h", "ui": "km/h", "mask": "flex", "in_mask": "flex",
@@ -608,7 +648,8 @@ def run_impl(case):
         out.memory_limit = case["mem_limit"]
         out.memory_location = tmpdir
     consumers = _consumers(case)
-    cgrids = [grid if not c.get("lay") else make_grid(cons_grid_desc(case, c)) for c in consumers]
+    cgrids = [make_grid({"kind": "no", "dsh": c["ngrid"]}) if c.get("ngrid") is not None
+              else grid if not c.get("lay") else make_grid(cons_grid_desc(case, c)) for c in consumers]
     inputs = []
     for i, c in enumerate(consumers):
         inp = fm.Input(name=f"In{i}")
@@ -621,11 +662,20 @@ def run_impl(case):
         inp.ping()
     out.push_info(fm.Info(time=t0, grid=grid, units=case["uo"], mask=mask_out))
     in_mask = fm.Mask.FLEX if case.get("in_mask", "flex") == "flex" else mask_out
-    for inp, c, cg in zip(inputs, consumers, cgrids):
-        if c["ui"] is None:
-            inp.exchange_info(fm.Info(time=t0, grid=cg, units=None, mask=in_mask))
-        else:
-            inp.exchange_info(fm.Info(time=t0, grid=cg, mask=in_mask, units=c["ui"]))
+    cons_shapes = [[int(x) for x in cg.data_shape] for cg in cgrids]
+    try:
+        for inp, c, cg in zip(inputs, consumers, cgrids):
+            if c["ui"] is None:
+                inp.exchange_info(fm.Info(time=t0, grid=cg, units=None, mask=in_mask))
+            else:
+                inp.exchange_info(fm.Info(time=t0, grid=cg, mask=in_mask, units=c["ui"]))
+    except Exception as e:  # noqa
+        # the link is not established: no data crosses
+        if tmpdir is not None:
+            import shutil
+            shutil.rmtree(tmpdir, ignore_errors=True)
+        return {"gshape": gshape, "order": order, "cons_units": [c["ui"] if c["ui"] is not None else case["uo"] for c in consumers],
+                "cons_shapes": cons_shapes, "spilled": 0, "exchange": err_class(e), "events": []}
     cons_units = [_unit_name(inp.info.units) for inp in inputs]
     cons_shapes = [[int(x) for x in cg.data_shape] for cg in cgrids]
     # the key under which the output knows each consumer (the final input, also behind pass-through adapters)
@@ -781,11 +831,15 @@ def coq_case(case, obs):
                            lay(c["lay"]["rev"], c["lay"]["inc"])))
         else:
             relay = NONE
-        cons.append(C("mkCo", _coq_unit(u), relay))
+        ng = NONE if c.get("ngrid") is None else Some(L(NONE if x == -1 else Some(N(x)) for x in c["ngrid"]))
+        cons.append(C("mkCo", _coq_unit(u), relay, ng))
     return P(C("mkC", inf, L(cons)), L(ops))
 
 
 def coq_obs(case, obs):
+    if obs.get("exchange"):
+        # MetaDataError: the model's OExchErr; any other class is something the model cannot produce
+        return L(["OExchErr"] if obs["exchange"] == "MetaDataError" else [C("OPush", NONE), C("OPush", NONE)])
     res = []
     for ev in obs["events"]:
         r = ev["res"]
@@ -880,6 +934,9 @@ def _check_delivery(case, obs, pub, r, cons, ck=0):
         cell = list(cshape)
     if r["shape"] != [k] + cell:
         return f"delivered shape {r['shape']}, expected {[k] + cell}"
+    declared = obs["cons_shapes"][ck]  # what the consumer's own grid says (-1: any length)
+    if len(declared) != len(r["shape"]) - 1 or any(g != -1 and g != x for g, x in zip(declared, r["shape"][1:])):
+        return f"delivered shape {r['shape']} does not fit the consumer grid's data shape {declared}"
     if r["units"] != cons:
         return f"delivered units {r['units']!r}, consumer units {cons!r}"
     p = pub["payload"]
@@ -911,6 +968,12 @@ def _sim(case, obs):
     pubs = []  # accepted publications: {"t", "payload", "form"}
     between = False
     nonscalar = False
+    if obs.get("exchange"):
+        # a refused link is no violation (no data crosses) unless both ends declare the very same data shape
+        same = all(c.get("ngrid") is None or list(c["ngrid"]) == list(obs["gshape"]) for c in _consumers(case))
+        if same and not any(c.get("lay") for c in _consumers(case)):
+            fails.append(f"info exchange between identical grids refused with {obs['exchange']}")
+        return fails, False, False
     for ev in obs["events"]:
         if ev["op"] == "push":
             p = ev["payload"]
@@ -1038,7 +1101,8 @@ def distribution(cases, obss):
                 forms["invalid" if f is None else ("stacked" if f[0] > 1 else "flatF" if f[1] else "ok")] += 1
             else:
                 pullres[ev["res"] if isinstance(ev["res"], str) else "data"] += 1
-    return {"grids": dict(grids), "payload_wrappers": dict(wraps), "payload_forms": dict(forms), "push_results": dict(pushres),
+    own = Counter(("refused" if o.get("exchange") else "linked") for c, o in zip(cases, obss) if any(cc.get("ngrid") is not None for cc in _consumers(c)))
+    return {"consumer_declares_own_nogrid": dict(own), "grids": dict(grids), "payload_wrappers": dict(wraps), "payload_forms": dict(forms), "push_results": dict(pushres),
             "pull_results": dict(pullres), "unit_pairs": len(unitpairs), "masks": dict(Counter("bits" if isinstance(c["mask"], list) else c["mask"] for c in cases))}
 
 
